@@ -289,3 +289,41 @@ func addressLists(r *Run, rule, c string, op *opcodeInfo, sp *rvSpec) {
 		r.check(eq, rule, c+"."+m, op.pos[m], "%s: %s address list agrees with the RV32IM row %s", op.mnemonic, m, diff)
 	}
 }
+
+// ruleRunRows compares Run of the named mnemonics with their RV32IM rows (as R02.1) under another rule id.
+func ruleRunRows(r *Run, rule string, mnemonics map[string]bool) {
+	a := analyseISA(r.W)
+	sb := newSpecBuilder(a)
+	if sb == nil {
+		r.undecided(rule, "risc.Execution", token.NoPos, "struct risc.Execution not found")
+		return
+	}
+	for _, op := range a.ops {
+		if !mnemonics[op.mnemonic] {
+			continue
+		}
+		c := "risc.(*" + op.typeName + ")"
+		sp := sb.spec(op.mnemonic)
+		if sp == nil || op.pcase == nil {
+			r.undecided(rule, c+".Run", op.pos["Run"], "no RV32IM row or no parser case for %q", op.mnemonic)
+			continue
+		}
+		if e, bad := op.errs["Run"]; bad {
+			r.undecided(rule, c+".Run", op.pos["Run"], "Run is not in a recognised form: %s", e)
+			continue
+		}
+		got := op.terms["Run"]
+		ok, why := false, ""
+		for _, want := range sp.run {
+			eq, diff := equivTrees(got, hoistAll(want))
+			if eq {
+				ok = true
+				break
+			}
+			if why == "" {
+				why = diff
+			}
+		}
+		r.check(ok, rule, c+".Run", op.pos["Run"], "%s: byte k of the value goes to / comes from address+k (effect term equals the RV32IM row) %s", op.mnemonic, why)
+	}
+}
